@@ -14,7 +14,9 @@
                built by init from v's own get() results), and K of (v, c) - this
                is the clause "two bitfields containing the same enumerators are
                equal and hash equally, however they were computed"
-   Record kinds (field f): pair, rel, single, elem, build, tree, hist.
+   Record kinds (field f): pair, rel, single, elem, build, tree, hist, bits, proxy,
+   histp (histories that assign one operator[] proxy to another) - inside the
+   statement of C10 - and proxyx, out - OBSERVED ONLY, see InScope at the end.
    Operator names: set (set(e,b)), idx (field[e] = b), ore (field | e), orae
    (field |= e), or/and/xor, ora/anda/xora (assigning forms), not, null, init,
    ilist, copy, assign, array (construction from the word array), swap.
@@ -116,6 +118,75 @@ ElemReasons(r) ==
      \cup If(r.an # m, "and_elem/result")
      \cup If(S(r.aa) # a, "operand/left-operand-of-value-operator-modified")
 
+(* assignment through operator[] from another operator[] proxy.  The statement of C10
+   names operator[] ("set/get/operator[] ... all agree with ... set"), and
+   object_decl.hpp calls the proxy "a reference to a mask value (a reference to a
+   boolean, basically)": field[i] = field[j] assigns the BIT, chains work right to
+   left, a named proxy keeps referring to its own enumerator *)
+ProxyReasons(r) ==
+  LET a == S(r.a)
+      b == S(r.b)
+      n == r.n
+      i == r.i
+      j == r.j
+  IN IF ~(i \in 0..(n - 1) /\ j \in 0..(n - 1)) THEN {"HARNESS-PRECONDITION"}
+     ELSE VReasons("proxy_copy_assign", "cp", r.cp, B(n)!SetBit(a, i, B(n)!Get(a, j)))
+          \cup VReasons("proxy_chain", "ch1", r.ch1, B(n)!SetBit(B(n)!SetBit(a, j, TRUE), i, TRUE))
+          \cup VReasons("proxy_chain", "ch0", r.ch0, B(n)!SetBit(B(n)!SetBit(a, j, FALSE), i, FALSE))
+          \cup VReasons("proxy_copy_assign", "named", r.named, B(n)!SetBit(a, i, FALSE))
+          \cup VReasons("proxy_move_assign", "mv", r.mv, B(n)!SetBit(a, i, B(n)!Get(a, j)))
+          \cup VReasons("proxy_copy_assign", "cross", r.cross, B(n)!SetBit(a, i, B(n)!Get(b, j)))
+          \cup If(S(r.crossb) # b, "operand/right-operand-modified")
+          \cup If(S(r.aa) # a, "operand/left-operand-of-value-operator-modified")
+
+(* details of the proxy type (OBSERVED ONLY): a copy of a proxy refers to the same bit,
+   conversion of a const proxy to bool, operator=(bool) returns the proxy itself, the
+   assigning operators return a reference to their left operand *)
+ProxyXReasons(r) ==
+  LET a == S(r.a)
+      n == r.n
+      i == r.i
+      j == r.j
+      B01(c) == IF c THEN 1 ELSE 0
+  IN IF ~(i \in 0..(n - 1) /\ j \in 0..(n - 1)) THEN {"HARNESS-PRECONDITION"}
+     ELSE VReasons("proxy_copy", "cpy", r.cpy, B(n)!SetBit(a, i, TRUE))
+          \cup If(r.cpyr # 1, "proxy_copy/refers-to-another-bit@cpyr")
+          \cup If(r.cc # B01(B(n)!Get(a, j)), "index/result@cc")
+          \cup If(r.rs # 1 \/ r.rs2 # 1, "idx/returns-another-object@rs")
+          \cup VReasons("idx", "rsv", r.rsv, B(n)!SetBit(a, i, FALSE))
+          \cup If(r.rid[1] # 1, "ora/returns-another-object@rid")
+          \cup If(r.rid[2] # 1, "anda/returns-another-object@rid")
+          \cup If(r.rid[3] # 1, "xora/returns-another-object@rid")
+          \cup If(r.rid[4] # 1, "orae/returns-another-object@rid")
+          \cup If(S(r.aa) # a, "operand/left-operand-of-value-operator-modified")
+
+(* operator<<, underlying_value, construction from the storage word *)
+NameOf(e) == IF e < 10 THEN <<118, 48 + e>> ELSE <<118, 48 + (e \div 10), 48 + (e % 10)>>
+Limbs16(v) == <<v % 65536, v \div 65536, 0, 0>>
+OutReasons(r) ==
+  LET a == S(r.a)
+      n == r.n
+      txt == B(n)!Output(a, [k \in 1..n |-> NameOf(k - 1)])
+  IN If(r.s # txt, "output/text@s")
+     \cup If(r.ws # txt, "output/text@ws")
+     \cup If(r.good # 1, "output/stream-state@good")
+     \cup (IF r.uv = <<>> THEN {}
+           ELSE If(r.uv # Limbs16(B(n)!Underlying(a)), "underlying_value/result@uv")
+                \cup VReasons("array", "uvb", r.uvb, a)
+                \cup (IF r.arg[3] # 0 \/ r.arg[4] # 0 \/ r.arg[2] > 1 THEN {"HARNESS-PRECONDITION"}
+                      ELSE VReasons("array", "from", r.from, B(n)!FromWord(r.arg[1] + 65536 * r.arg[2]))))
+
+(* every single-enumerator operation of one subset (built with field[e] = true) *)
+BitsReasons(r) ==
+  LET n == r.n
+      a == B(n)!FromWord(r.m)
+  IN If(S(r.a) # a, "idx/contents@a")
+     \cup If(S(r.ai) # S(r.a), "index/differs-from-get")
+     \cup If(\E e \in 0..(n - 1) : S(r.s1[e + 1]) # B(n)!SetBit(a, e, TRUE), "set/contents@s1")
+     \cup If(\E e \in 0..(n - 1) : S(r.s0[e + 1]) # B(n)!SetBit(a, e, FALSE), "idx/contents@s0")
+     \cup If(\E e \in 0..(n - 1) : S(r.or1[e + 1]) # B(n)!SetBit(a, e, TRUE), "ore/contents@or1")
+     \cup VReasons("not", "nt", r.nt, B(n)!Not(a))
+
 BuildReasons(r) ==
   IF ~InRange(r.n, r.s) THEN {"HARNESS-PRECONDITION"}
   ELSE VReasons(r.how, "r", r.r, B(r.n)!FromList(r.s))
@@ -158,6 +229,29 @@ BFReasons(r) ==
     [] r.f = "elem" -> ElemReasons(r)
     [] r.f = "build" -> BuildReasons(r)
     [] r.f = "tree" -> TreeReasons(r)
-    [] r.f = "hist" -> HistReasons(r)
+    [] r.f \in {"hist", "histp"} -> HistReasons(r)
+    [] r.f = "proxy" -> ProxyReasons(r)
+    [] r.f = "proxyx" -> ProxyXReasons(r)
+    [] r.f = "out" -> OutReasons(r)
+    [] r.f = "bits" -> BitsReasons(r)
     [] OTHER -> {"unknown-record-kind"}
+
+(* Scope (docs/EXTENSION_BRIEF.md, "stay inside the property's statement"): a rejected
+   record of a kind listed here may become a VIOLATION of C10; the other kinds are
+   judged and counted but only reported as observations.
+     pair, rel, tree, hist  "the operators |, &, ^, ~ and their assigning forms,
+                            is_subset_eq, ==, != and hash all agree with union, ..."
+     single, elem, bits     "set/get/operator[]", "~ ... complement relative to the enum"
+     build                  "construction from an initializer list and init"; copies and the
+                            array constructor only carry values ("two bitfields containing the
+                            same enumerators are equal and hash equally, however they were computed")
+     proxy, histp           "set/get/operator[] ... all agree with ..." - assignment THROUGH
+                            operator[] from another operator[] proxy (field[a] = field[b],
+                            field[a] = field[b] = true); object_decl.hpp: the proxy is "a reference to
+                            a mask value (a reference to a boolean, basically)".  Decision of the
+                            coordinator; defect repaired in /repo by 506c999.
+   Not covered by the statement (observed only): proxyx (a copy of a proxy, const proxy
+   conversion, identity of the references returned by operator=(bool) and by the
+   assigning operators), out (operator<<, underlying_value, construction from a word). *)
+InScope == {"pair", "rel", "single", "elem", "build", "tree", "hist", "bits", "proxy", "histp"}
 =============================================================================
